@@ -817,15 +817,15 @@ def decode_tokens(F, fn, adt_pat, depth=0):
             first = a[0]
             while isinstance(first, tuple) and first and first[0] in ('ref', 'deref'):
                 first = first[1]
-            if nm.endswith('::next') and base_bi not in seen_blocks:
-                # `for x in src.as_ref()`: one byte per item
+            if (nm.endswith('::next') or re.search(r'::(collect|sum|count|for_each|fold|last)$', nm)) and base_bi not in seen_blocks:
+                # `for x in src.as_ref()` / `src.iter().map(..).collect()`: one byte per item
                 it = first
                 hops = 0
                 while isinstance(it, tuple) and it and hops < 12:
                     hops += 1
                     if it[0] in ('ref', 'deref'):
                         it = it[1]
-                    elif it[0] == 'call' and re.search(r'(^|::)(as_ref|deref|iter|into_iter|copied|cloned|borrow|as_slice)$', it[1]) and it[2]:
+                    elif it[0] == 'call' and re.search(r'(^|::)(as_ref|deref|iter|into_iter|copied|cloned|borrow|as_slice|map|enumerate|inspect|by_ref)$', it[1]) and it[2]:
                         it = it[2][0]
                     else:
                         break
